@@ -104,6 +104,7 @@ class Check:
             # many groups (more than a small-sort threshold) whose keys mix integers and text
             t = tops[0]
             exts = ["1", "2", "3", "5", "8", "9", "10", "11", "12", "20", "21", "100", "1a", "2b", "3c", "7z", "9x", "10a", "11b", "0x", "a", "b", "c", "d", "e", "f", "g", "05", "007", "zz", "Q", "42"]
+            exts += ["g%02d" % i for i in range(30)]
             for e in rng.sample(exts, rng.randint(22, len(exts))):
                 pth = "%s/m.%s" % (t, e)
                 if pth not in have:
@@ -123,6 +124,9 @@ class Check:
         if rng.random() < 0.6:
             cand = keys + [a for a in aggs if a != "avg(size)"]
             order = {"key": rng.choice(cand), "desc": rng.random() < 0.4}
+            if rng.random() < 0.4 and len(cand) > 1:
+                # a second ORDER BY key decides among the (many) ties of the first
+                order["then"] = {"key": rng.choice([c for c in cand if c != order["key"]]), "desc": rng.random() < 0.4}
         envs = []
         for i in range(2):
             _, plan = gen.gen_env(rng, world)
@@ -160,6 +164,10 @@ class Check:
                 c = copy.deepcopy(case)
                 c[k] = v
                 yield c
+        if case["order"] and case["order"].get("then"):
+            c = copy.deepcopy(case)
+            del c["order"]["then"]
+            yield c
         if len(case["seeds"]) > 1:
             for i in range(len(case["seeds"])):
                 c = copy.deepcopy(case)
@@ -184,6 +192,11 @@ class Check:
         fromc = " from %s %s" % (top, case["roots"][0]["mode"])
         wherec = (" where " + case["where"]) if case["where"] else ""
         orderc = (" order by %s%s" % (case["order"]["key"], " desc" if case["order"]["desc"] else "")) if case["order"] else ""
+        then = case["order"].get("then") if case["order"] else None
+        if then and (then["key"] not in keys + aggs):
+            then = None
+        if then:
+            orderc += ", %s%s" % (then["key"], " desc" if then["desc"] else "")
         sel = keys + aggs
         qg = "select " + ", ".join(sel) + fromc + wherec + " group by " + ", ".join(keys) + orderc + " into list"
         qk = "select " + ", ".join(keys) + fromc + wherec + " into list"
@@ -271,9 +284,18 @@ class Check:
                             tv = vals
                         else:
                             tv = None
+                        tv2 = None
+                        if then and tv is not None:
+                            v2 = [row[sel.index(then["key"])] for row in rows]
+                            tv2 = [int(v) for v in v2] if all(is_int(v) for v in v2) else (v2 if not any(is_int(v) for v in v2) else None)
                         if tv is not None:
                             desc = case["order"]["desc"]
                             okk = all((tv[i] >= tv[i + 1]) if desc else (tv[i] <= tv[i + 1]) for i in range(len(tv) - 1))
+                            if okk and tv2 is not None:
+                                # among equal first keys the second key decides
+                                d2 = then["desc"]
+                                okk = all(tv[i] != tv[i + 1] or ((tv2[i] >= tv2[i + 1]) if d2 else (tv2[i] <= tv2[i + 1])) for i in range(len(tv) - 1))
+                                ctx.metric("two_key_group_orders")
                             if not okk:
                                 viols.append(Violation(PROP, "C08.sorted", ["C08.sorted", case["order"]["key"].split("(")[0], "desc" if desc else "asc"],
                                                        {"query": qg, "seed": seed, "values": [v.decode("utf-8", "replace") for v in vals][:12]}))
